@@ -498,6 +498,8 @@ def special_hints():
         ('List[UGenDict[str,int]]', List[uc.UGenDict[str, int]]), ('Union[UGenDict[str,int],Dict[int,str]]', Union[uc.UGenDict[str, int], Dict[int, str]]),
         ('UGenDict[str,UGenList[int]]', uc.UGenDict[str, uc.UGenList[int]]),
         ('TBU', TBU), ('Optional[TBU]', Optional[TBU]), ('List[TBU]', List[TBU]), ('Dict[TBU,TB]', Dict[TBU, TB]),
+        ('UIntList', uc.UIntList), ('List[UIntList]', List[uc.UIntList]), ('Optional[UIntList]', Optional[uc.UIntList]),
+        ('Dict[str,UIntList]', Dict[str, uc.UIntList]), ('Union[UIntList,str]', Union[uc.UIntList, str]),
         ('NTNT', NTNT), ('List[NTNT]', List[NTNT]), ('Union[NTNT,str]', Union[NTNT, str]),
         # a union whose direct member is also nested inside an earlier member (reduction guards must not leak between siblings)
         ('Union[List[float],float]', Union[List[float], float]), ('Union[Dict[str,complex],complex]', Union[Dict[str, complex], complex]),
